@@ -784,8 +784,19 @@ impl Fiber {
       .expect("Unable to write to stderr");
     }
 
-    let message = error[0].to_obj().to_str();
-    writeln!(log, "{}: {}", &*error.class().name(), &*message).expect("Unable to write to stderr");
+    // the message is an ordinary field and may hold any value
+    let message = error[0];
+    if message.is_obj_kind(ObjectKind::String) {
+      writeln!(
+        log,
+        "{}: {}",
+        &*error.class().name(),
+        &*message.to_obj().to_str()
+      )
+      .expect("Unable to write to stderr");
+    } else {
+      writeln!(log, "{}: {}", &*error.class().name(), message).expect("Unable to write to stderr");
+    }
   }
 
   /// Get a value on the stack
